@@ -168,6 +168,8 @@ def run_job(u, job, cfile, outdir, tier='quick', extra_defs=(), tag=''):
             return res
     else:
         gb1 = gb0
+        job = dict(job)
+        job['flags'] = job.get('flags', []) + ['--drop-unused-functions']
     backend = job.get('backend', 'sat')
     flags = list(CHECK_FLAGS)
     for fl in job.get('drop_flags', []):
@@ -222,9 +224,11 @@ def run_job(u, job, cfile, outdir, tier='quick', extra_defs=(), tag=''):
 
 def classify(job, p):
     """property-bearing | supporting"""
-    pats = job.get('property_bearing', ['postcondition', 'assertion'])
+    pats = job.get('property_bearing', [r'\.postcondition\.', r'\.assertion\.'])
     n = p['name']
+    if n.startswith('__CPROVER_contracts'):
+        return 'supporting'
     for pat in pats:
-        if re.search(pat, n) or re.search(pat, p.get('desc', '')):
+        if re.search(pat, n):
             return 'property'
     return 'supporting'
